@@ -19,6 +19,6 @@ for inst in ins[:lim]:
     print(round(time.time() - t, 2), r['label'][:150])
     print('   ', {k: r[k] for k in ('paths', 'obligations', 'proved', 'by_normal_form', 'unknown', 'violations', 'exceptions', 'inconclusive', 'witnessed') if k in r}, r.get('stats', {}).get('by_stage'))
     if r.get('crashed'):
-        print(r['crashed'])
-    for e in r.get('exceptions_full', []):
-        print(e['tb'])
+        print(r['crashed'][-700:])
+    for e in r.get('exceptions_full', [])[:1]:
+        print('\n'.join((e['tb'] or '').strip().splitlines()[-4:]))
